@@ -29,15 +29,17 @@ FLOORS = {
                  'split_properties': 800, 'control:split-existence-behaviour': 1,
                  'control:split-response-behaviour': 1, 'control:split-requirement-trigger': 1},
 }
-BUDGET = {'quick': {'props': 800, 'L': 3}, 'thorough': {'props': 2400, 'L': 4}}
+BUDGET = {'quick': {'props': 1200, 'L': 3}, 'thorough': {'props': 2400, 'L': 4}}
 TIMEOUT = {'quick': 900, 'thorough': 7200}
 TOPICS = ('a', 'b', 'c', 'd')
 SPLIT = {'no': 'behaviour', 'requires': 'behaviour', 'forbids': 'behaviour', 'causes': 'trigger', 'some': None}
 X = A.fld('x')
 
 
-def make_property(rng, sk, pk, widths):
-    """abstract property over the small alphabet; activator simple"""
+def make_property(rng, sk, pk, widths, binding_sensitive=False):
+    """abstract property over the small alphabet; activator simple.  binding_sensitive: earlier events get aliases
+    and later predicates compare their payload with them (the value an alias is bound to - first activation,
+    each trigger - then decides the verdict)"""
     order = gen.binding_order(sk, pk)
     bound = {}
     events = {}
@@ -52,10 +54,14 @@ def make_property(rng, sk, pk, widths):
         alts = []
         mine = []
         for i in range(w):
-            alias = alias_pool.pop(0) if rng.random() < 0.5 else None
+            alias = alias_pool.pop(0) if rng.random() < (0.9 if binding_sensitive else 0.5) else None
             k = rng.random()
             pred = None
-            if k < 0.25:
+            if binding_sensitive and pos == 'activator' and k < 0.7:
+                pred = None  # the activator matches messages of either payload: which one binds the alias matters
+            elif binding_sensitive and visible and k < 0.75:
+                pred = ('bin', gen.pick(rng, ('=', '!=')), X, ('field', A.var(gen.pick(rng, visible)), 'x'))
+            elif k < 0.25:
                 pred = ('bin', '=', X, A.num(str(rng.randrange(2))))
             elif k < 0.55 and visible:
                 pred = ('bin', gen.pick(rng, ('=', '!=')), X, ('field', A.var(gen.pick(rng, visible)), 'x'))
@@ -69,6 +75,8 @@ def make_property(rng, sk, pk, widths):
         bound[pos] = mine if w == 1 else []
         events[pos] = alts[0] if w == 1 else ('disj', tuple(alts))
     tb = gen.pick(rng, (None, None, ('1', 's'), ('2', 's'), ('1', 's'), ('2', 's'), ('0', 's'), ('1500', 'ms')))
+    if binding_sensitive and rng.random() < 0.7:
+        tb = None
     return gen.assemble(sk, pk, events, tb)
 
 
@@ -126,7 +134,7 @@ def run(ctx):
     prev_hp = None
     for n in range(n_props):
         sk, pk, widths = cells[(n * ctx.nshards + ctx.shard) % len(cells)]
-        p = make_property(rng, sk, pk, widths)
+        p = make_property(rng, sk, pk, widths, binding_sensitive=(n % 4 == 3 or (sk in ('after', 'after_until') and n % 4 != 0)))
         text = A.render_prop(p)
         feats = {'api:canonical_form', 'shape:' + sk, 'shape:' + pk}
         ctx.begin_case(feats)
